@@ -996,6 +996,7 @@ int femmcli::LuaHeatflowCommands::luaModifyConductorProperty(lua_State *L)
         if (!lua_isnil(L,3))
             newName = lua_tostring(L,3);
         prop->CircName = newName;
+        doc->updateCircuitMap();
         break;
     }
     case 1:
@@ -1120,6 +1121,7 @@ int femmcli::LuaHeatflowCommands::luaModifyPointProperty(lua_State *L)
     {
     case 0:
         p->PointName = lua_tostring(L,3);
+        doc->updateNodeMap();
         break;
     case 1:
         // field T in HDRAWLUA
